@@ -195,11 +195,14 @@ def content_doc(rng):
                  "no address here", "a@b.example?subject=hello Jane", "Jane (jane at example.org)"]
         r = rng.random()
         if r < 0.4:
-            return "<%s>%s</%s>" % ((rng.choice(["author", "author", "dc:creator"]),) * 1 + (rng.choice(texts),) + (None,))[:3] if False else \
-                (lambda n, t: "<%s>%s</%s>" % (n, t, n))(rng.choice(["author", "author", "dc:creator", "managingEditor"] if not atom else ["dc:creator", "author"]), rng.choice(texts))
-        outer = rng.choice(["author", "author", "contributor"])
+            return (lambda n, t: "<%s>%s</%s>" % (n, t, n))(rng.choice(["author", "author", "dc:creator", "managingEditor"] if not atom else ["dc:creator", "author"]), rng.choice(texts))
+        if r < 0.5:
+            return (lambda n, t: "<%s>%s</%s>" % (n, t, n))(rng.choice(["webMaster", "dc:publisher"]), rng.choice(texts))
+        outer = rng.choice(["author", "author", "contributor", "itunes:owner"])
         kids = []
         for k in rng.sample(["name", "email", "uri", "url", "homepage"], rng.randint(0, 3)):
+            if outer == "itunes:owner" and rng.random() < 0.6:
+                k = "itunes:" + k if k in ("name", "email") else k
             kids.append("<%s>%s</%s>" % (k, rng.choice(["Jane", "jane@example.org", "http://example.org/jane", "rel/jane", "", " J "]), k))
         return "<%s>%s%s</%s>" % (outer, rng.choice(["", "", "text "]), "".join(kids), outer)
 
